@@ -31,10 +31,10 @@ class AutoWorld(ReqWorld):
     name = "W-auto"
 
     def __init__(self, controller: bool = False, pairs: bool = True, requests=("r0", "r1", "r3"), name: str = "",
-                 human: bool = True, prices: bool = False, cancel: int = 240):
+                 human: bool = True, prices: bool = False, cancel: int = 240, home_plug: bool = True):
         World.__init__(self)
         self.pairs = pairs
-        self.name = name or ("W-auto+controller" if controller else "W-auto")
+        self.name = name or (("W-auto+controller" if controller else "W-auto") + ("" if home_plug else "/no-home-plug"))
         S = sites()
         self.S = S
         dconf = {
@@ -66,8 +66,9 @@ class AutoWorld(ReqWorld):
         vehicles = [v0, v1, v2]
         if human:
             hs = mk_station(env, rn, "hs", S["X2"], {"LEVEL_2": 1})
-            hb = mk_base(rn, "hb", S["X2"], stalls=1, station_id="hs")
-            stations.append(hs)
+            hb = mk_base(rn, "hb", S["X2"], stalls=1, station_id="hs" if home_plug else None)
+            if home_plug:
+                stations.append(hs)
             bases.append(hb)
             vehicles.append(mk_vehicle(env, rn, "h0", S["N2"], "quiet", soc=0.4, schedule_id="early", home_base_id="hb"))
         if prices:
